@@ -285,6 +285,23 @@ def rule_match(fx, rep):
                 elif from_list:
                     missing = sorted(set(need) - have)
                     bad("guards", f"expect_matching returns a list element without requiring equality of {missing} with its parameters", b, s.get("line"))
+    if not good and ok and em:
+        # search-combinator form: self.iter().copied().find(|mv| mv.src() == src && ..): the comparisons sit in the closure
+        b = em[0]
+        for bb, t in b.calls():
+            cn = norm(callee_name(t) or "")
+            if cn.endswith("Iterator>::find") or cn.endswith("Iterator::find") or cn.endswith("Iterator>::position"):
+                it = b.expr(t["args"][0], expand_named=True, at=bb)
+                cl = [x for x in walk(b.expr(t["args"][1], expand_named=True, at=bb)) if isinstance(x, tuple) and x and x[0] == "agg" and str(x[1]).startswith("closure:")]
+                cb = fx.bodies.get(cl[0][1][len("closure:"):]) if cl else None
+                if cb is not None and any(isinstance(x, tuple) and len(x) >= 2 and x[0] == "arg" and x[1] == 1 for x in walk(it)):
+                    called = {norm(callee_name(t2) or "").split("::")[-1] for _, t2 in cb.calls() if "moves::Move::" in norm(callee_name(t2) or "")}
+                    missing = sorted({"src", "dst", "promotion"} - called)
+                    if missing:
+                        bad("guards", f"expect_matching searches the list with a predicate that never looks at {missing}", b, t.get("line"))
+                    else:
+                        good = True
+                        rep.notes.append("C17-MATCH: expect_matching uses an iterator search; the predicate's three accessor comparisons are present, their exact form is not decided")
     rep.obligation(good)
     if not good and ok:
         bad("shape", "expect_matching does not return a list element under equality of (src, dst, promotion)", em[0] if em else fx.one("uci::Uci::execute"))
